@@ -216,29 +216,8 @@ def specStep (p : Plot) : Bool × List (Rat × Nat) → Event → Bool × List (
 def specRun (p : Plot) (evs : List Event) : Bool × List (Rat × Nat) :=
   evs.foldl (specStep p) (false, [])
 
-/-! ## hand-over to extraction: `SSI_mpe` / `pLSCF_mpe`, branch `order = list` -/
-
-/-- For every selected frequency `fj` with its order `order[ii]`: the non-NaN pole of that
-    order nearest to `fj`, kept when `close` to some selected frequency
-    (`np.isclose(·, freq_ref, rtol).any()`).  `none` = an exception (`IndexError`,
-    `ValueError` of `nanargmin`). Returns the extracted `Fn`. -/
-def mpeGo (close : Rat → Rat → Bool) (t : Mat (Option Rat)) (freqRef : List Rat)
-    (order : List Nat) (ii : Nat) : List Rat → Option (List Rat)
-  | [] => some []
-  | fj :: rest =>
-    match order[ii]? with
-    | none => none
-    | some o =>
-      match closestRow t o fj with
-      | none => none
-      | some (sel, _) =>
-        match t.e sel o, mpeGo close t freqRef order (ii + 1) rest with
-        | some fns, some out => if freqRef.any (close fns) then some (fns :: out) else some out
-        | _, _ => none
-
-def mpeList (close : Rat → Rat → Bool) (t : Mat (Option Rat)) (freqRef : List Rat)
-    (order : List Nat) : Option (List Rat) :=
-  mpeGo close t freqRef order 0 freqRef
+-- hand-over to extraction: the list-of-orders branch of `SSI_mpe` / `pLSCF_mpe` is `PV.ssiMpe` / `PV.plscfMpe`
+-- (`Model/Mpe.lean`, the models of C11); see `Props/C16Extract.lean`.
 
 end Pick
 end PV
